@@ -198,9 +198,19 @@ def isolated_parse(items: list[tuple[str, str, bool, bool]], cpu_s: int = MON.IS
 
     def work(emit: Any) -> None:
         for i, (src, mode, comments, render) in enumerate(items):
-            emit({"i": i, "cpu": _time.process_time()})
+            t0 = _time.process_time()
+            emit({"i": i, "cpu": t0})
             label = parse_label(src, mode, comments, render)
-            emit({"i": i, "label": label, "done": _time.process_time()})
+            dur = _time.process_time() - t0
+            if dur > PARSE_BACKSTOP_S:
+                # The first thing a freshly forked child of a large worker runs also pays for that worker's
+                # copy-on-write page faults (seconds of system time in the thorough tier, where a worker holds
+                # millions of case hashes).  The parse terminated, so time it once more: a parse that really
+                # needs this long needs it both times.
+                t1 = _time.process_time()
+                label = parse_label(src, mode, comments, render)
+                dur = min(dur, _time.process_time() - t1)
+            emit({"i": i, "label": label, "done": t0 + dur})
 
     out, sig = MON.run_isolated(work, cpu_s)
     labels: dict[int, str] = {}
